@@ -1,7 +1,20 @@
 #!/bin/bash
-# usage: seed_run.sh <PROP> <change_dir> [check args]  : apply the patch to /repo, run the check, undo
-p=$1; ch=$2; shift 2
-cd /repo && git status --short | grep -q . && { echo "/repo not clean"; exit 9; }
-git -C /repo apply $ch/patch.diff || exit 9
-cd /verif && timeout 1500 ./check $p "$@" 2>&1 | grep -v "^  UNDEC" | cut -c1-250 | tail -12; echo "exit=${PIPESTATUS[0]}"
-git -C /repo checkout -- .
+# usage: seed_run.sh <PROP> <change_dir> [worktree] [check args]
+# Runs the registered check of <PROP> against a scratch worktree of /repo with the seeded patch applied
+# (VERIF_REPO_ROOT / VERIF_OUT testing aids of vf/driver.py): /repo itself and /verif/evidence are not touched.
+# Without a worktree argument the patch is applied to /repo, the check run, and the patch undone straight afterwards.
+p=$1; ch=$(readlink -f $2); shift 2
+if [ -n "$1" ] && [ -d "$1/python/numqi" ]; then
+  wt=$(readlink -f $1); shift
+  git -C $wt checkout -q -- . ; git -C $wt apply $ch/patch.diff || exit 9
+  [ -f $wt/python/numqi/_version.py ] || cp /repo/python/numqi/_version.py $wt/python/numqi/_version.py
+  out=$(mktemp -d /tmp/seedrun.XXXXXX)
+  cd /verif && VERIF_REPO_ROOT=$wt VERIF_OUT=$out timeout 1500 ./check $p "$@" 2>&1 | grep -v "^  UNDEC\|Warning\|warn" | cut -c1-250 | tail -12; echo "exit=${PIPESTATUS[0]}"
+  git -C $wt checkout -q -- .
+  mkdir -p $ch/run && cp -r $out/replays $ch/run/ 2>/dev/null; rm -rf $out
+else
+  cd /repo && git status --short | grep -q . && { echo "/repo not clean"; exit 9; }
+  git -C /repo apply $ch/patch.diff || exit 9
+  cd /verif && timeout 1500 ./check $p "$@" 2>&1 | grep -v "^  UNDEC" | cut -c1-250 | tail -12; echo "exit=${PIPESTATUS[0]}"
+  git -C /repo checkout -- .
+fi
